@@ -5,9 +5,9 @@ import (
 	"encoding/json"
 	"fmt"
 	"regexp"
-	"time"
 	"sort"
 	"strings"
+	"time"
 
 	"github.com/aundis/formula"
 
